@@ -64,3 +64,170 @@ Example dqueue_nonvacuous :
   let s := Dq.exec 2 2 [2; 2; 1; 1; 0; 0; 0; 0; 0; 0; 2; 1] in
   Dq.reqs s = [2; 1] /\ Dq.sent s = [(2, 0); (1, 1)] /\ Dq.got s 2 = [0] /\ Dq.got s 1 = [1] /\ Dq.processor s = 0 /\ Dq.stream s = 0.
 Proof. vm_compute. repeat split; reflexivity. Qed.
+
+(* ================================================================== shcounter *)
+(* assumption: cntr is one atomic variable (what C11 establishes for the 2PC-backed resource) *)
+From PGV Require C16.Shcounter C16.ShcounterProofs.
+Module Sh := PGV.C16.Shcounter.
+Module ShP := PGV.C16.ShcounterProofs.
+
+(* the counter is exactly the number of nodes that have passed `update` *)
+Theorem shcounter_counts : forall N evs,
+  Sh.cntr (Sh.exec N evs) = ShP.count (Sh.pc (Sh.exec N evs)) 1 N.
+Proof. intros N evs. exact (ShP.i_count _ _ (ShP.inv_reachable _ _ (ShP.exec_reachable N evs))). Qed.
+Print Assumptions shcounter_counts.
+
+Theorem shcounter_never_exceeds : forall N evs, Sh.cntr (Sh.exec N evs) <= N.
+Proof. intros N evs. exact (ShP.never_exceeds_lemma N _ (ShP.exec_reachable N evs)). Qed.
+Print Assumptions shcounter_never_exceeds.
+
+(* the counter never decreases: along any continuation evs2 of any execution evs1 *)
+Theorem shcounter_monotone : forall N evs1 evs2,
+  Sh.cntr (Sh.exec N evs1) <= Sh.cntr (Sh.run N (Sh.exec N evs1) evs2).
+Proof. intros N evs1 evs2. exact (ShP.monotone_lemma N evs2 (Sh.exec N evs1)). Qed.
+Print Assumptions shcounter_monotone.
+
+(* it ends at exactly NUM_NODES: whenever a node has passed `wait` (in particular at termination) cntr = NUM_NODES *)
+Theorem shcounter_ends_at_num_nodes : forall N evs p,
+  Sh.pc (Sh.exec N evs) p = Sh.Done -> Sh.cntr (Sh.exec N evs) = N.
+Proof. intros N evs p. exact (ShP.ends_at_N_lemma N _ p (ShP.exec_reachable N evs)). Qed.
+Print Assumptions shcounter_ends_at_num_nodes.
+
+(* and stays there (the safety half of CntrValueOK == <>[](cntr = NUM_NODES)) *)
+Theorem shcounter_stable : forall N evs1 evs2,
+  Sh.cntr (Sh.exec N evs1) = N -> Sh.cntr (Sh.run N (Sh.exec N evs1) evs2) = N.
+Proof. intros N evs1 evs2. exact (ShP.stable_lemma N _ evs2 (ShP.exec_reachable N evs1)). Qed.
+Print Assumptions shcounter_stable.
+
+(* bounded progress: from any reachable state, one step of every node reaches NUM_NODES *)
+Theorem shcounter_can_finish : forall N evs, Sh.cntr (Sh.run N (Sh.exec N evs) (seq 1 N)) = N.
+Proof. intros N evs. exact (ShP.can_finish_lemma N _ (ShP.exec_reachable N evs)). Qed.
+Print Assumptions shcounter_can_finish.
+
+Example shcounter_nonvacuous :
+  Sh.cntr (Sh.exec 3 [2; 2; 1; 3; 2]) = 3 /\ Sh.pc (Sh.exec 3 [2; 2; 1; 3; 2]) 2 = Sh.Done /\
+  Sh.out_code (Sh.step 3 (Sh.exec 3 [2]) 2) = 1.
+Proof. vm_compute. repeat split; reflexivity. Qed.
+
+(* ================================================================== loadbalancer *)
+From PGV Require C16.LoadBalancer C16.LoadBalancerProofs.
+Module Lb := PGV.C16.LoadBalancer.
+Module LbP := PGV.C16.LoadBalancerProofs.
+
+(* the spec's invariant BuffersOk, for every NUM_SERVERS, NUM_CLIENTS, BUFFER_SIZE and every interleaving *)
+Theorem loadbalancer_buffers_ok : forall NS NC B evs node,
+  0 <= List.length (Lb.net (Lb.exec NS NC B evs) node) /\ List.length (Lb.net (Lb.exec NS NC B evs) node) <= B.
+Proof. intros NS NC B evs. exact (LbP.buffers_ok_lemma NS NC B _ (LbP.exec_reachable NS NC B evs)). Qed.
+Print Assumptions loadbalancer_buffers_ok.
+
+(* no assertion fails (assert msg.message_type = GET_PAGE; assert FALSE in WebPages.write) and no action is
+   ill-typed, under the spec's ASSUME NUM_SERVERS > 0 *)
+Theorem loadbalancer_assertion_free : forall NS NC B evs p, NS >= 1 ->
+  Lb.step NS NC B (Lb.exec NS NC B evs) p <> Lb.AssertFail /\ Lb.step NS NC B (Lb.exec NS NC B evs) p <> Lb.TypeError.
+Proof. intros NS NC B evs p H. exact (LbP.safe_lemma NS NC B _ p H (LbP.exec_reachable NS NC B evs)). Qed.
+Print Assumptions loadbalancer_assertion_free.
+
+(* messages are where they belong: requests at the balancer, forwarded requests at servers, pages at clients *)
+Theorem loadbalancer_well_formed : forall NS NC B evs, LbP.Wf NS NC B (Lb.exec NS NC B evs).
+Proof. intros NS NC B evs. exact (LbP.wf_reachable NS NC B _ (LbP.exec_reachable NS NC B evs)). Qed.
+Print Assumptions loadbalancer_well_formed.
+
+Example loadbalancer_nonvacuous :
+  let s := Lb.exec 2 1 1 [3; 3; 0; 0; 0; 1; 1; 1; 3] in
+  Lb.out_ s = Some Lb.Page /\ Lb.answered s = [(3, 0, 1)] /\ Lb.lnext s = 1 /\ Lb.nreq s 3 = 1 /\ Lb.loc s 3 = Lb.Idle.
+Proof. vm_compute. repeat split; reflexivity. Qed.
+
+(* ================================================================== gcounter *)
+From PGV Require C16.Gcounter C16.GcounterProofs.
+Module Gc := PGV.C16.Gcounter.
+Module GcP := PGV.C16.GcounterProofs.
+
+(* the spec's StrongConvergence: replicas with equal knowledge (c[i] = c[j]) have equal state, for every
+   NUM_NODES and every interleaving of updates, waits and merges (any pairs, any order) *)
+Theorem gcounter_strong_convergence : forall N evs i j,
+  (forall k, Gc.hist (Gc.exec N evs) i k = Gc.hist (Gc.exec N evs) j k) ->
+  forall k, Gc.cnt (Gc.exec N evs) i k = Gc.cnt (Gc.exec N evs) j k.
+Proof. intros N evs. exact (GcP.strong_convergence_lemma N _ (GcP.exec_reachable N evs)). Qed.
+Print Assumptions gcounter_strong_convergence.
+
+(* replicas with equal knowledge read equal values *)
+Theorem gcounter_equal_knowledge_equal_reads : forall N evs i j,
+  (forall k, Gc.hist (Gc.exec N evs) i k = Gc.hist (Gc.exec N evs) j k) ->
+  Gc.read N (Gc.exec N evs) i = Gc.read N (Gc.exec N evs) j.
+Proof. intros N evs. exact (GcP.equal_reads_lemma N _ (GcP.exec_reachable N evs)). Qed.
+Print Assumptions gcounter_equal_knowledge_equal_reads.
+
+(* counters never decrease: every component of every replica along every continuation, and the value read *)
+Theorem gcounter_monotone : forall N evs1 evs2 i k,
+  Gc.cnt (Gc.exec N evs1) i k <= Gc.cnt (Gc.run N (Gc.exec N evs1) evs2) i k.
+Proof. intros N evs1 evs2. exact (GcP.monotone_lemma N evs2 (Gc.exec N evs1)). Qed.
+Print Assumptions gcounter_monotone.
+
+Theorem gcounter_read_monotone : forall N evs1 evs2 i,
+  Gc.read N (Gc.exec N evs1) i <= Gc.read N (Gc.run N (Gc.exec N evs1) evs2) i.
+Proof. intros N evs1 evs2. exact (GcP.read_monotone_lemma N evs2 (Gc.exec N evs1)). Qed.
+Print Assumptions gcounter_read_monotone.
+
+Theorem gcounter_read_bounded : forall N evs i, Gc.read N (Gc.exec N evs) i <= N.
+Proof. intros N evs. exact (GcP.read_bounded_lemma N _ (GcP.exec_reachable N evs)). Qed.
+Print Assumptions gcounter_read_bounded.
+
+(* the state of a replica is a function of its knowledge: localcntrs[i][k] = 1 iff <<k,1>> \in c[i] *)
+Theorem gcounter_state_is_knowledge : forall N evs i k,
+  Gc.cnt (Gc.exec N evs) i k = GcP.b2n (Gc.hist (Gc.exec N evs) i k).
+Proof. intros N evs. exact (GcP.i_know _ _ (GcP.inv_reachable N _ (GcP.exec_reachable N evs))). Qed.
+Print Assumptions gcounter_state_is_knowledge.
+
+Theorem gcounter_assertion_free : forall N evs e, Gc.step N (Gc.exec N evs) e <> Gc.AssertFail.
+Proof. intros N evs e. exact (GcP.assertion_free_lemma N _ e). Qed.
+Print Assumptions gcounter_assertion_free.
+
+Example gcounter_nonvacuous :
+  let s := Gc.exec 3 [Gc.ENode 1; Gc.ENode 2; Gc.EMerge 2 (Some 1); Gc.ENode 3; Gc.EMerge 3 (Some 1)] in
+  Gc.read 3 s 1 = 3 /\ Gc.read 3 s 2 = 2 /\ Gc.read 3 s 3 = 3 /\ Gc.hist s 2 3 = false /\
+  Gc.out_code (Gc.step 3 s (Gc.ENode 2)) = 1 /\ Gc.out_code (Gc.step 3 s (Gc.ENode 1)) = 0.
+Proof. vm_compute. repeat split; reflexivity. Qed.
+
+(* ================================================================== proxy *)
+(* with the perfect failure detector (mapping fd[_] via PerfectFD) and NUM_SERVERS < FAIL = 100 (a server's id is
+   the body of its answers, so id 100 would be indistinguishable from FAIL) *)
+From PGV Require C16.Proxy C16.ProxyProofs.
+Module Px := PGV.C16.Proxy.
+Module PxP := PGV.C16.ProxyProofs.
+
+(* the spec's invariant ProxyOK, for every configuration, every interleaving, every resolution of the
+   `either`s (in particular every crash sequence of backends: mayFail) *)
+Theorem proxy_ok : forall g evs r j, Px.NS g < Px.FAIL ->
+  Px.ppc_ (Px.exec g evs) = Px.PSend -> Px.p_proxyResp (Px.exec g evs) = Some r -> Px.m_body r = Px.FAIL ->
+  1 <= j <= Px.NS g -> Px.spc_ (Px.exec g evs) j = Px.SFail \/ Px.spc_ (Px.exec g evs) j = Px.SDone.
+Proof. intros g evs r j Hb Hpc Hr Hf. exact (PxP.proxy_ok_lemma g Hb _ (PxP.exec_reachable g evs) r Hpc Hr Hf j). Qed.
+Print Assumptions proxy_ok.
+
+(* the proxy reports failure only when every backend has failed: a FAIL answer in flight to a client, or
+   delivered as output, implies every server has stopped *)
+Theorem proxy_fail_reported_only_if_all_failed : forall g evs, Px.NS g < Px.FAIL ->
+  let s := Px.exec g evs in
+  (forall c m, In m (Px.queue s c Px.RESP) -> Px.m_body m = Px.FAIL -> forall j, 1 <= j <= Px.NS g -> Px.spc_ s j = Px.SDone) /\
+  (forall m, Px.output s = Some m -> Px.m_body m = Px.FAIL -> forall j, 1 <= j <= Px.NS g -> Px.spc_ s j = Px.SDone).
+Proof. intros g evs Hb. exact (PxP.fail_reported_only_if_all_failed_lemma g Hb _ (PxP.exec_reachable g evs)). Qed.
+Print Assumptions proxy_fail_reported_only_if_all_failed.
+
+(* the perfect detector never suspects a running server *)
+Theorem proxy_fd_accurate : forall g evs j, Px.NS g < Px.FAIL ->
+  Px.fd (Px.exec g evs) j = true -> Px.spc_ (Px.exec g evs) j = Px.SDone.
+Proof. intros g evs j Hb. exact (PxP.fd_accurate_lemma g Hb _ (PxP.exec_reachable g evs) j). Qed.
+Print Assumptions proxy_fd_accurate.
+
+(* full statement still open for proxy: no assertion of the spec fails (needs the request/response matching
+   invariant); checked by the implementation-side oracle only *)
+Definition proxy_assertion_free_statement : Prop := forall g evs e,
+  Px.NS g >= 1 -> Px.NS g < Px.FAIL ->
+  Px.step g (Px.exec g evs) e <> Px.AssertFail /\ Px.step g (Px.exec g evs) e <> Px.TypeError.
+
+(* non-vacuity: one server, one client; the server fails at once, the proxy skips it and reports FAIL *)
+Example proxy_nonvacuous :
+  let g := Px.mkCfg 1 1 true true in
+  let s := Px.exec g [(2, 0); (1, 1); (1, 0); (3, 0); (3, 1); (3, 0)] in
+  Px.ppc_ s = Px.PSend /\ Px.spc_ s 1 = Px.SDone /\ Px.fd s 1 = true /\ Px.p_idx s = Some 2 /\
+  exists r, Px.p_proxyResp s = Some r /\ Px.m_body r = Px.FAIL.
+Proof. vm_compute. repeat split; try reflexivity. eexists. split; reflexivity. Qed.
